@@ -29,7 +29,7 @@ import (
 func TestVerifC13(t *testing.T) {
 	logx.Disable()
 	secs := verifh.Sections(func(r *verifh.Rng) []verifh.Section {
-		return append(VerifC13Gen(r, 120, 2500, 0), c13MultiGen(r)...)
+		return append(VerifC13Gen(r, 120, 2000, 0), c13MultiGen(r)...)
 	})
 	verifh.Run(t, secs, func(cfg verifh.Cfg) (func(op []string) string, func()) {
 		if cfg.Str("h", "") == "multi" {
